@@ -82,6 +82,11 @@ type WAL struct {
 	// waits on the close before acquiring the lock and continuing.
 	triggerRotate chan uint64
 	awaitRotate   chan struct{}
+
+	// writeErr is set (while holding writeMu) if a failure has left the
+	// persisted meta data describing different files than the state we have in
+	// memory. All further writes are refused with this error.
+	writeErr error
 }
 
 type walOpt func(*WAL)
@@ -275,6 +280,9 @@ func (w *WAL) loadState() *state {
 
 // mutateState executes a stateTxn. writeLock MUST be held while calling this.
 func (w *WAL) mutateStateLocked(tx stateTxn) error {
+	if w.writeErr != nil {
+		return w.writeErr
+	}
 	s := w.loadState()
 	s.acquire()
 	defer s.release()
@@ -292,6 +300,23 @@ func (w *WAL) mutateStateLocked(tx stateTxn) error {
 
 	if postCommit != nil {
 		if err := postCommit(); err != nil {
+			// The new state is already committed to meta data but we failed to
+			// create the new segment file, so we carry on with the old state in
+			// memory. Put the meta data back to match it, otherwise later appends
+			// would be acknowledged in files that a restart no longer knows about.
+			// We must never re-use the segment ID though as the failed attempt
+			// might have left a file behind.
+			rollback := s.clone()
+			rollback.nextSegmentID = newS.nextSegmentID
+			if rbErr := w.metaDB.CommitState(rollback.Persistent()); rbErr != nil {
+				// Meta data now describes files we are not using. Refuse all further
+				// writes rather than acknowledge entries that would be lost on
+				// restart. Reads of what we have are still fine.
+				w.writeErr = fmt.Errorf("WAL meta data is out of sync after failed segment creation (%s) "+
+					"and failed roll back (%s), restart required", err, rbErr)
+				return w.writeErr
+			}
+			w.s.Store(&rollback)
 			return err
 		}
 	}
@@ -393,6 +418,10 @@ func (w *WAL) StoreLogs(logs []*raft.Log) error {
 	// Ensure queued rotation has completed before us if we raced with it for
 	// write lock.
 	w.awaitRotationLocked()
+
+	if w.writeErr != nil {
+		return w.writeErr
+	}
 
 	s, release := w.acquireState()
 	defer release()
